@@ -274,57 +274,53 @@ pub proof fn lemma_fract_nonzero(sn: int, sd: int, t: int, fnum: int)
     }
 }
 
-// ---- the limit^-2 nudge -------------------------------------------------------------------------------------------
-/// target = f + 1/L^2 with f = fnum/fd a proper canonical fraction, fd <= L, L >= 2: the canonical target tn/td
-/// satisfies the preconditions of farey_neighbors (denominator > L, non-zero, |target| <= 1)
-pub proof fn lemma_nudge_pre(fnum: int, fd: int, L: int, tn: int, td: int)
-    requires L >= 2, 1 <= fd <= L, rabs(fnum) < fd, fnum == 0 ==> fd == 1, td >= 1,
-        tn * (fd * (L * L)) == (fnum * (L * L) + 1 * fd) * td
+// ---- the nudge by 1/K, K > limit^2 (the real code uses K = limit^2 + 1) --------------------------------------------------
+/// target = f + 1/K with f = fnum/fd a proper fraction, fd <= L, K > L^2: the target tn/td (any representation with
+/// td >= 1) satisfies the preconditions of farey_neighbors (denominator > L, non-zero, |target| <= 1) and f < target
+pub proof fn lemma_nudge_pre(fnum: int, fd: int, L: int, K: int, tn: int, td: int)
+    requires L >= 1, K > L * L, 1 <= fd <= L, rabs(fnum) < fd, td >= 1,
+        tn * (fd * K) == (fnum * K + 1 * fd) * td
     ensures td > L, tn != 0, rabs(tn) <= td, qlt(fnum, fd, tn, td)
 {
     let l2 = L * L;
-    assert(l2 >= 2 * L) by (nonlinear_arith) requires l2 == L * L, L >= 2;
-    let dd = fd * l2;
-    let nn = fnum * l2 + fd;
-    assert(dd >= l2) by (nonlinear_arith) requires dd == fd * l2, fd >= 1, l2 >= 1;
-    // k = tn*fd - fnum*td is a positive integer with k * L^2 == fd * td
+    assert(l2 >= L) by (nonlinear_arith) requires l2 == L * L, L >= 1;
+    let dd = fd * K;
+    let nn = fnum * K + fd;
+    assert(dd >= K) by (nonlinear_arith) requires dd == fd * K, fd >= 1, K >= 1;
+    // k = tn*fd - fnum*td is a positive integer with k * K == fd * td
     let k = tn * fd - fnum * td;
     let fdtd = fd * td;
-    assert(k * l2 == fdtd) by (nonlinear_arith)
-        requires tn * dd == nn * td, dd == fd * l2, nn == fnum * l2 + fd, k == tn * fd - fnum * td, fdtd == fd * td;
+    assert(k * K == fdtd) by (nonlinear_arith)
+        requires tn * dd == nn * td, dd == fd * K, nn == fnum * K + fd, k == tn * fd - fnum * td, fdtd == fd * td;
     assert(fdtd >= 1) by (nonlinear_arith) requires fdtd == fd * td, fd >= 1, td >= 1;
-    assert(k >= 1) by (nonlinear_arith) requires k * l2 == fdtd, fdtd >= 1, l2 >= 1;
+    assert(k >= 1) by (nonlinear_arith) requires k * K == fdtd, fdtd >= 1, K >= 1;
     // f < target
     assert(qlt(fnum, fd, tn, td));
-    // denominator
+    // denominator: td <= L would give k*K == fd*td <= L^2 < K
     if td <= L {
         assert(fdtd <= l2) by (nonlinear_arith) requires fdtd == fd * td, 1 <= fd <= L, 1 <= td <= L, l2 == L * L;
-        assert(k == 1) by (nonlinear_arith) requires k * l2 == fdtd, fdtd <= l2, k >= 1, l2 >= 1;
-        assert(fdtd == l2) by (nonlinear_arith) requires k * l2 == fdtd, k == 1;
-        assert(fd == L && td == L) by (nonlinear_arith) requires fdtd == fd * td, l2 == L * L, fdtd == l2, 1 <= fd <= L, 1 <= td <= L;
-        let m = tn - fnum;
-        assert(m * L == 1) by (nonlinear_arith) requires k == tn * fd - fnum * td, k == 1, fd == L, td == L, m == tn - fnum;
-        assert(false) by (nonlinear_arith) requires m * L == 1, L >= 2;
+        assert(k * K >= K) by (nonlinear_arith) requires k >= 1, K >= 1;
+        assert(false);
     }
     // |N| <= D, N != 0
     assert(nn <= dd && nn > -dd && nn != 0) by (nonlinear_arith)
-        requires nn == fnum * l2 + fd, dd == fd * l2, -fd < fnum < fd, 1 <= fd <= L, l2 >= 2 * L, fnum == 0 ==> fd == 1;
+        requires nn == fnum * K + fd, dd == fd * K, -fd < fnum < fd, 1 <= fd <= L, K > l2, l2 >= L;
     assert(tn != 0) by (nonlinear_arith) requires tn * dd == nn * td, nn != 0, td >= 1;
     assert(rabs(tn) <= td) by (nonlinear_arith) requires tn * dd == nn * td, -dd < nn <= dd, td >= 1, dd >= 1;
 }
 
 /// neighbours (lo, hi) of the nudged target enclose f itself: lo <= f < hi
-pub proof fn lemma_nudge_up(fnum: int, fd: int, L: int, tn: int, td: int, lon: int, lod: int, hn: int, hd: int)
-    requires L >= 1, 1 <= fd <= L, td >= 1, 1 <= lod <= L, hd >= 1,
-        tn * (fd * (L * L)) == (fnum * (L * L) + 1 * fd) * td,
+pub proof fn lemma_nudge_up(fnum: int, fd: int, L: int, K: int, tn: int, td: int, lon: int, lod: int, hn: int, hd: int)
+    requires L >= 1, K > L * L, 1 <= fd <= L, td >= 1, 1 <= lod <= L, hd >= 1,
+        tn * (fd * K) == (fnum * K + 1 * fd) * td,
         qlt(lon, lod, tn, td), qlt(tn, td, hn, hd)
     ensures qle(lon, lod, fnum, fd), qlt(fnum, fd, hn, hd)
 {
     let l2 = L * L;
     assert(l2 >= 1) by (nonlinear_arith) requires l2 == L * L, L >= 1;
-    let dd = fd * l2;
-    let nn = fnum * l2 + fd;
-    assert(dd >= 1) by (nonlinear_arith) requires dd == fd * l2, fd >= 1, l2 >= 1;
+    let dd = fd * K;
+    let nn = fnum * K + fd;
+    assert(dd >= 1) by (nonlinear_arith) requires dd == fd * K, fd >= 1, K >= 1;
     // target == nn/dd as a value
     lemma_qeq_left(tn, td, nn, dd, lon, lod);
     lemma_qeq_left(tn, td, nn, dd, hn, hd);
@@ -333,18 +329,19 @@ pub proof fn lemma_nudge_up(fnum: int, fd: int, L: int, tn: int, td: int, lon: i
     // f < nn/dd
     let ff = fd * fd;
     assert(ff >= 1) by (nonlinear_arith) requires ff == fd * fd, fd >= 1;
-    assert(fnum * dd < nn * fd) by (nonlinear_arith) requires dd == fd * l2, nn == fnum * l2 + fd, ff == fd * fd, ff >= 1;
+    assert(fnum * dd < nn * fd) by (nonlinear_arith) requires dd == fd * K, nn == fnum * K + fd, ff == fd * fd, ff >= 1;
     assert(qlt(fnum, fd, nn, dd));
     lemma_qlt_qle(fnum, fd, nn, dd, hn, hd);
-    // lo <= f: otherwise m = lon*fd - fnum*lod >= 1 and m * L^2 < fd * lod <= L^2
+    // lo <= f: otherwise m = lon*fd - fnum*lod >= 1 and m * K < fd * lod <= L^2 < K
     if !qle(lon, lod, fnum, fd) {
         let m = lon * fd - fnum * lod;
         assert(m >= 1);
         let fl = fd * lod;
-        assert(m * l2 < fl) by (nonlinear_arith)
-            requires lon * dd < nn * lod, dd == fd * l2, nn == fnum * l2 + fd, m == lon * fd - fnum * lod, fl == fd * lod;
+        assert(m * K < fl) by (nonlinear_arith)
+            requires lon * dd < nn * lod, dd == fd * K, nn == fnum * K + fd, m == lon * fd - fnum * lod, fl == fd * lod;
         assert(fl <= l2) by (nonlinear_arith) requires fl == fd * lod, 1 <= fd <= L, 1 <= lod <= L, l2 == L * L;
-        assert(false) by (nonlinear_arith) requires m * l2 < fl, fl <= l2, m >= 1, l2 >= 1;
+        assert(m * K >= K) by (nonlinear_arith) requires m >= 1, K >= 1;
+        assert(false);
     }
 }
 
@@ -399,35 +396,34 @@ pub proof fn lemma_direct_all(fnum: int, sd: int, L: int)
     }
 }
 
-/// branch "denominator <= limit" of next_up: neighbours of target = f + 1/L^2
-pub proof fn lemma_nudge_up_all(fnum: int, fd: int, sd: int, L: int, tn: int, td: int)
-    requires L >= 1, 1 <= fd <= L, td >= 1, sd >= 1, (fnum == 0 && fd == 1) || fd == sd,
-        tn * (fd * (L * L)) == (fnum * (L * L) + 1 * fd) * td
+/// branch "denominator <= limit" of next_up: neighbours of target = f + 1/K
+pub proof fn lemma_nudge_up_all(fnum: int, fd: int, sd: int, L: int, K: int, tn: int, td: int)
+    requires L >= 1, K > L * L, 1 <= fd <= L, td >= 1, sd >= 1, (fnum == 0 && fd == 1) || fd == sd,
+        tn * (fd * K) == (fnum * K + 1 * fd) * td
     ensures
         forall|lon: int, lod: int, hn: int, hd: int| #[trigger] farey_nb(tn, td, L, lon, lod, hn, hd) ==> up_cert(fnum, sd, L, hn, hd),
 {
     assert forall|lon: int, lod: int, hn: int, hd: int| #[trigger] farey_nb(tn, td, L, lon, lod, hn, hd) implies up_cert(fnum, sd, L, hn, hd) by {
-        lemma_nudge_up(fnum, fd, L, tn, td, lon, lod, hn, hd);
+        lemma_nudge_up(fnum, fd, L, K, tn, td, lon, lod, hn, hd);
         lemma_fract_den(fnum, fd, sd, hn, hd);
         lemma_fract_den(fnum, fd, sd, lon, lod);
         assert(lod >= 1 && qle(lon, lod, fnum, sd) && no_frac_between(lon, lod, hn, hd, L));
     }
 }
 
-/// the same for next_down, target = f - 1/L^2 (mirror image through negation)
-pub proof fn lemma_nudge_down_all(fnum: int, fd: int, sd: int, L: int, tn: int, td: int)
-    requires L >= 1, 1 <= fd <= L, td >= 1, sd >= 1, (fnum == 0 && fd == 1) || fd == sd,
-        tn * (fd * (L * L)) == (fnum * (L * L) - 1 * fd) * td
+/// the same for next_down, target = f - 1/K (mirror image through negation)
+pub proof fn lemma_nudge_down_all(fnum: int, fd: int, sd: int, L: int, K: int, tn: int, td: int)
+    requires L >= 1, K > L * L, 1 <= fd <= L, td >= 1, sd >= 1, (fnum == 0 && fd == 1) || fd == sd,
+        tn * (fd * K) == (fnum * K - 1 * fd) * td
     ensures
         forall|lon: int, lod: int, hn: int, hd: int| #[trigger] farey_nb(tn, td, L, lon, lod, hn, hd) ==> down_cert(fnum, sd, L, lon, lod),
 {
-    let l2 = L * L;
-    let dd = fd * l2;
-    assert((-tn) * dd == ((-fnum) * l2 + 1 * fd) * td) by (nonlinear_arith) requires tn * dd == (fnum * l2 - 1 * fd) * td;
+    let dd = fd * K;
+    assert((-tn) * dd == ((-fnum) * K + 1 * fd) * td) by (nonlinear_arith) requires tn * dd == (fnum * K - 1 * fd) * td;
     assert forall|lon: int, lod: int, hn: int, hd: int| #[trigger] farey_nb(tn, td, L, lon, lod, hn, hd) implies down_cert(fnum, sd, L, lon, lod) by {
         lemma_q_neg(lon, lod, tn, td);
         lemma_q_neg(tn, td, hn, hd);
-        lemma_nudge_up(-fnum, fd, L, -tn, td, -hn, hd, -lon, lod);
+        lemma_nudge_up(-fnum, fd, L, K, -tn, td, -hn, hd, -lon, lod);
         lemma_q_neg(fnum, fd, hn, hd);
         lemma_q_neg(lon, lod, fnum, fd);
         lemma_fract_den(fnum, fd, sd, hn, hd);
@@ -435,15 +431,14 @@ pub proof fn lemma_nudge_down_all(fnum: int, fd: int, sd: int, L: int, tn: int, 
         assert(hd >= 1 && qle(fnum, sd, hn, hd) && no_frac_between(lon, lod, hn, hd, L));
     }
 }
-pub proof fn lemma_nudge_pre_down(fnum: int, fd: int, L: int, tn: int, td: int)
-    requires L >= 2, 1 <= fd <= L, rabs(fnum) < fd, fnum == 0 ==> fd == 1, td >= 1,
-        tn * (fd * (L * L)) == (fnum * (L * L) - 1 * fd) * td
+pub proof fn lemma_nudge_pre_down(fnum: int, fd: int, L: int, K: int, tn: int, td: int)
+    requires L >= 1, K > L * L, 1 <= fd <= L, rabs(fnum) < fd, td >= 1,
+        tn * (fd * K) == (fnum * K - 1 * fd) * td
     ensures td > L, tn != 0, rabs(tn) <= td
 {
-    let l2 = L * L;
-    let dd = fd * l2;
-    assert((-tn) * dd == ((-fnum) * l2 + 1 * fd) * td) by (nonlinear_arith) requires tn * dd == (fnum * l2 - 1 * fd) * td;
-    lemma_nudge_pre(-fnum, fd, L, -tn, td);
+    let dd = fd * K;
+    assert((-tn) * dd == ((-fnum) * K + 1 * fd) * td) by (nonlinear_arith) requires tn * dd == (fnum * K - 1 * fd) * td;
+    lemma_nudge_pre(-fnum, fd, L, K, -tn, td);
 }
 
 /// final step of next_up: ret = trunc + up
